@@ -8,7 +8,7 @@ export VSIM_EVIDENCE_DIR=${VSIM_EVIDENCE_DIR:-$PWD/soak_out/evidence} VSIM_REPLA
 mkdir -p "$VSIM_EVIDENCE_DIR" "$VSIM_REPLAY_DIR"
 for s in $(seq $first $last); do
   for p in $props; do
-    out=$(VERIF_SEED=$s timeout 1800 /verif/bin/vsim check $p --tier quick --no-determinism 2>&1)
+    out=$(VERIF_SEED=$s timeout 1800 bin/vsim check $p --tier quick --no-determinism 2>&1)
     rc=$?
     echo "seed=$s $p rc=$rc $(echo "$out" | grep "^$p tier" | cut -c1-160)"
     if [ $rc -ne 0 ]; then echo "$out" | grep -v "^ [0-9 ][0-9]:" | grep "^violation\|^VIOLATION\|HARNESS" | cut -c1-500 | head -8; fi
